@@ -23,7 +23,8 @@ MANIFEST = {
             "known (up to the recorded abstract key types), nothing optional is demanded, text length limits of language strings and "
             "decorated string attributes equal the schema's maxLength. With the generic codec theorems (C03/C04) these hold for "
             "documents of every depth. PARTIAL: regex-defined lexical spaces are checked by the schema validators on generated "
-            "documents, not proved; the reading direction beyond table level is exercised by an independent specification-driven writer.",
+            "documents, not proved; the reading direction beyond table level is exercised by an independent specification-driven writer."
+            " The emission order of the levelType children (dict order of IEC61360_LEVEL_TYPES) is regenerated and proved equal to the XSD sequence (c05_level_type_sequence).",
     "note": "schema files in /repo are the specification's; class->definition and attribute->member mapping is the spec side "
             "(py/vf/meta.py + NAME rules in c05.py); jsonschema and lxml.XMLSchema are trusted validators (supporting evidence)",
     "technique": "Lean 4 proof: decide over regenerated code tables vs regenerated schema tables + generic codec theorems; schema validators "
